@@ -84,13 +84,24 @@ fn main() {
     let mut round = 0usize;
     'outer: while lines < target {
         round += 1;
-        let (c, gold, pol, maxlen) = match round % 4 {
-            0 => (shuffle_position(&mut rng), rng.chance(0.5), Policy::Shuffle, 120),
-            1 => {
+        // every other round: a two-ply probe around one intended push start / pull lead (dense local
+        // neighbourhood, edge squares over-represented): the first action is forced, then two more
+        let mut forced: Option<Action> = None;
+        let (c, gold, pol, maxlen) = if round % 2 == 0 {
+            match focus_position(&mut rng, (round / 2) % 2) {
+                Some((c, g, sq, d)) => {
+                    forced = Some(Action::Move(Square::from_index(sq as u8), d));
+                    (c, g, Policy::Contact, 3)
+                }
+                None => continue,
+            }
+        } else { match round % 8 {
+            1 => (shuffle_position(&mut rng), rng.chance(0.5), Policy::Shuffle, 120),
+            3 => {
                 let n = 6 + rng.below(14);
                 (clustered_position(&mut rng, n), rng.chance(0.5), Policy::Contact, 50)
             }
-            2 => {
+            5 => {
                 let n = 4 + rng.below(28);
                 (random_position(&mut rng, n), rng.chance(0.5), Policy::Capture, 50)
             }
@@ -104,7 +115,7 @@ fn main() {
                 }
                 (c, g, Policy::Contact, 24)
             }
-        };
+        } };
         let mut states: Vec<GameState> = Vec::new();
         for v in 0..4u8 {
             let cv = map_cells(&c, v);
@@ -129,7 +140,11 @@ fn main() {
                 break;
             }
             let side = if gs.is_p1_turn_to_move() { 0 } else { 1 };
-            let a = choose_action(&gs, &off, pol, &last_own[side], &mut rng);
+            let a = match forced.take() {
+                Some(f) if off.contains(&f) => f,
+                Some(_) => break,
+                None => choose_action(&gs, &off, pol, &last_own[side], &mut rng),
+            };
             if let Action::Move(_, _) = a {
                 last_own[side] = Some(a);
             }
